@@ -2,8 +2,8 @@
 Model of `image-orientation`:
 * `weasyprint/css/computed_values.py::image_orientation`: `(round(angle / pi * 2) % 4 * 90, flip)`;
 * `weasyprint/images.py::rotate_pillow_image`: which Pillow transpositions are applied
-  (`Image.Transpose.ROTATE_{angle}` — a COUNTER-clockwise rotation in Pillow — then `FLIP_LEFT_RIGHT`),
-  on an image seen as its size and its pixel function;
+  (`Image.Transpose.ROTATE_{(360 - angle) % 360}` — Pillow's `ROTATE_n` turns COUNTER-clockwise, the
+  CSS angle is clockwise — then `FLIP_LEFT_RIGHT`), on an image seen as its size and its pixel function;
 * `cssOrient`: what css-images-3 asks for (rotation to the right, then horizontal flip), for comparison.
 No Mathlib: linked into `driver_c13`.
 -/
@@ -44,15 +44,21 @@ inductive Orientation where
   | turn (angle : Nat) (flip : Bool)      -- angle ∈ {0, 90, 180, 270}
   deriving Repr, DecidableEq
 
+/-- Pillow `image.transpose(Image.Transpose.ROTATE_<n>)`: `n` degrees COUNTER-clockwise
+(`n` ∈ {90, 180, 270}; any other `n` has no such member: `getattr` raises AttributeError — not reachable,
+the computed angle is a quarter turn; the model leaves the image as it is). -/
+def Img.pillowRotate {α} (i : Img α) (n : Nat) : Img α :=
+  if n = 90 then i.rotCcw else if n = 180 then i.rot180 else if n = 270 then i.rotCw else i
+
 /-- `rotate_pillow_image(pillow_image, orientation)` for an image without EXIF data:
-`(image, changed)` where `changed` = another image object is returned (the source bytes are dropped). -/
+`(image, changed)` where `changed` = another image object is returned (the source bytes are dropped).
+`if angle > 0: rotation = ROTATE_{(360 - angle) % 360}` (repair e4e2f8c: the CSS angle is clockwise). -/
 def rotatePillow {α} (i : Img α) : Orientation → Img α × Bool
   | .none => (i, false)
   | .fromImage => (i, false)
   | .turn angle flip =>
     let (i1, c1) :=
-      if angle > 0 then
-        (if angle = 90 then i.rotCcw else if angle = 180 then i.rot180 else if angle = 270 then i.rotCw else i, true)
+      if angle > 0 then (i.pillowRotate ((360 - angle) % 360), true)
       else (i, false)
     if flip then (i1.flipLr, true) else (i1, c1)
 
